@@ -72,7 +72,7 @@ def evaluate(t, env: dict, globals_: dict | None = None, funcs: dict | None = No
     if tag in ("tuple", "list", "set") and len(t) == 2:
         vals = [evaluate(x, env, globals_, funcs) for x in t[1]]
         return {"tuple": tuple, "list": list, "set": set}[tag](vals)
-    if tag == "ifexp":
+    if tag in ("ifexp", "phi") and len(t) == 4:
         return evaluate(t[2] if evaluate(t[1], env, globals_, funcs) else t[3],
                         env, globals_, funcs)
     if tag == "call":
